@@ -102,6 +102,8 @@ def sched(explanation, extra=None, **kw):
 PROPS["C04"] = sched("At every scheduling step of every explored interleaving, with all threads parked, every key visible in the index must resolve to an existing blob of the recorded size; at quiescence and after reopen every value must read back intact.")
 PROPS["C05"] = sched("Every read under every explored interleaving must succeed, and a brute-force search must find a real-time-respecting linearization (get/put one point, remove/remove_range two points) that explains all results and the final contents; readers are drained after further steps.")
 PROPS["C15"] = sched("A reachable scheduling state with unfinished threads and no enabled thread (all pending lock acquisitions blocked) is a deadlock; a running thread that reaches no scheduling point for 20 s is a hang. All pairs of API calls incl. explicit and rollover checkpoints and clean-up, unbounded; triples bounded.")
+for _p in ("C01", "C07", "C12", "C13"):
+    PROPS[_p]["engines"].append({"engine": "seqtx", "shim": False})
 PROPS["C13"]["engines"].append({"engine": "sched", "shim": True})
 PROPS["C07"]["engines"].append({"engine": "sched", "shim": True})
 PROPS["C06"]["engines"].append({"engine": "sched", "shim": True})
@@ -145,6 +147,8 @@ ENGINES = [
      "kind_free_text": "racing opens under the controlled scheduler with every filesystem call as a point; cross-process pause/kill of the owner; exhaustive settings-gate configurations"},
     {"name": "power", "path": "harness/src/power.rs", "serves_properties": ["C09"],
      "kind_free_text": "sync-loss images reconstructed from the shim's syscall trace, validated against live snapshots at every cut, every subset of dirty files lost"},
+    {"name": "seqtx", "path": "harness/src/seqtx.rs", "serves_properties": ["C01", "C07", "C12", "C13"],
+     "kind_free_text": "sequential histories with transactions held open across other operations (begin/write/finish/drop as separate symbols, two slots), vs the BTreeMap model"},
     {"name": "crash", "path": "harness/src/crash.rs", "serves_properties": ["C03", "C06", "C08", "C12", "C20"],
      "kind_free_text": "every syscall boundary of every bounded history: live-directory crash images via LD_PRELOAD shim, recovered and checked, nested in recovery"},
 ]
